@@ -353,7 +353,8 @@ def queue_pop_advances(run, F):
     for q, head, nxt in rows:
         f = fn(F, q); G = Graph(f)
         ws = [(n, e) for n, e in G.ev.items() if e.get('k') == 'assign' and e['lhs'] == 'this.' + head]
-        if not ws: raise Broken('%s no longer assigns %s' % (q, head))
+        xs = [n for n, e in G.ev.items() if e.get('k') == 'call' and e['callee'].get('name') == 'exchange' and e.get('args') and last_field(e['args'][0].get('p', '')) == head]
+        if not ws and not xs: raise Broken('%s no longer assigns or exchanges %s' % (q, head))
         for n, e in ws:
             run.inst(site(f, G.line(n)), '%s advanced to the popped item\'s %s' % (head, nxt), key=(q, G.line(n)))
             ps = expr_paths(e.get('rhs'))
